@@ -50,17 +50,24 @@ Applicable(o, P, f) ==
 GateSites == { a + b + c + d + e : a \in {0, 8}, b \in {0, 16}, c \in {0, 32}, d \in {0, 64}, e \in {0, 128} }
 GateBases == { s * 512 : s \in GateSites }
 GateSteps == {"none", "chdir", "seccompA", "seccompB", "exec"}
+\* Launcher death inside the callback (Launch!PCrash), also run in every tier: a helper launcher process
+\* exits / is SIGKILLed while its SyncFunc runs, for every gate combination that has a callback, without and
+\* with a user namespace (+ pid namespace), and with credential + capability drop on top.
+CrashBases == LET S == { g \in GateSites : Bit(g, 6) } IN { s * 512 + r : s \in S, r \in {0, 1, 3} } \cup { (s + 3) * 512 : s \in S }
 
 CasesOf(b) ==
   LET o == MkOpt(SiteOf(b), RowOf(b))
       P == ToSet(ChildPath(o))
       gate(step) == b \in GateBases /\ step \in GateSteps
   IN IF HangCombo(o) THEN {}
-     ELSE { [s |-> SiteOf(b), r |-> RowOf(b), opt |-> o, fail |-> f.step, idx |-> f.idx, cb |-> "ok", hang |-> FALSE, gate |-> gate(f.step)]
+     ELSE { [s |-> SiteOf(b), r |-> RowOf(b), opt |-> o, fail |-> f.step, idx |-> f.idx, cb |-> "ok", hang |-> FALSE, gate |-> gate(f.step), crash |-> ""]
             : f \in { ff \in Recipes : Applicable(o, P, ff) } }
-          \cup (IF o.sync THEN { [s |-> SiteOf(b), r |-> RowOf(b), opt |-> o, fail |-> "none", idx |-> 0, cb |-> x, hang |-> FALSE, gate |-> gate("none")] : x \in {"ok", "err"} }
+          \cup (IF o.sync THEN { [s |-> SiteOf(b), r |-> RowOf(b), opt |-> o, fail |-> "none", idx |-> 0, cb |-> x, hang |-> FALSE, gate |-> gate("none"), crash |-> ""] : x \in {"ok", "err"} }
                 ELSE {})
-C07Cases == UNION { CasesOf(b) : b \in C07Bases \cup GateBases }
+          \cup (IF o.sync /\ b \in CrashBases
+                THEN { [s |-> SiteOf(b), r |-> RowOf(b), opt |-> o, fail |-> "none", idx |-> 0, cb |-> "ok", hang |-> FALSE, gate |-> TRUE, crash |-> m] : m \in {"exit", "kill"} }
+                ELSE {})
+C07Cases == UNION { CasesOf(b) : b \in C07Bases \cup GateBases \cup CrashBases }
 
 ASSUME ndJsonSerialize("c04cases.ndjson", SetToSeq(C04Cases))
 ASSUME ndJsonSerialize("c07cases.ndjson", SetToSeq(C07Cases))
